@@ -368,6 +368,9 @@ theorem blockTail_E {cfg : Cfg} {startT : Option Tree} {tn : Option Name} {v : L
       · split at heq
         · split at heq <;> simp at heq
         · simp at heq
+      · split at heq
+        · split at heq <;> simp at heq
+        · simp at heq
 
 theorem blockMatch_E {f : F} (hf : FE env.tbl f) {fuel : Nat} {cfg : Cfg} {s : St}
     {content : List Tree} {s' : St} (heq : blockMatch env f fuel cfg s = (.tuple content, s')) :
